@@ -505,6 +505,7 @@ func streamIcpt(c *Ctx) {
 	doneContextChainProbe(c, "icpt-order")
 	doneContextClientProbe(c)
 	repeatedInterceptorProbe(c)
+	oneClientAllKindsProbe(c)
 	twoRecoversProbe(c)
 	icptValueTypeProbe(c)
 	icptGroupShapeProbes(c)
@@ -1041,6 +1042,63 @@ func repeatedInterceptorProbe(c *Ctx) {
 					c.Fail("icpt-order", fmt.Sprintf("interceptors a, b, a declared as %s on the %s, %s call", shape, side, kind), got, "the effective chain is the flat concatenation in declaration order: in=1,2,1")
 				}
 			}
+		}
+	}
+}
+
+// oneClientAllKindsProbe: one Client value may be used for every kind of call, in any order and
+// repeatedly: every call passes through the chain (round 11, C16-mo: a chain built on the first
+// streaming call and kept for that stream type only).
+func oneClientAllKindsProbe(c *Ctx) {
+	h := connect.NewBidiStreamHandler("/s/m", func(ctx context.Context, s *connect.BidiStream[emptypb.Empty, emptypb.Empty]) error {
+		for {
+			if _, err := s.Receive(); err != nil {
+				break
+			}
+		}
+		return s.Send(&emptypb.Empty{})
+	})
+	for _, order := range [][]string{{"server", "client", "bidi", "unary", "server", "client", "bidi"}, {"bidi", "server", "client"}, {"client", "unary", "bidi", "server"}} {
+		log := &eventLog{}
+		a, b := &logIcpt{id: 1, log: log}, &logIcpt{id: 2, log: log}
+		cl := connect.NewClient[emptypb.Empty, emptypb.Empty](&inprocClient{h: h}, "http://h/s/m", connect.WithInterceptors(a), connect.WithInterceptors(b))
+		var got []string
+		for _, kind := range order {
+			log.reset()
+			switch kind {
+			case "unary":
+				_, _ = cl.CallUnary(context.Background(), connect.NewRequest(&emptypb.Empty{}))
+			case "server":
+				st, err := cl.CallServerStream(context.Background(), connect.NewRequest(&emptypb.Empty{}))
+				if err == nil {
+					for st.Receive() {
+					}
+					_ = st.Close()
+				}
+			case "client":
+				st := cl.CallClientStream(context.Background())
+				_ = st.Send(&emptypb.Empty{})
+				_, _ = st.CloseAndReceive()
+			default:
+				st := cl.CallBidiStream(context.Background())
+				_ = st.Send(&emptypb.Empty{})
+				_ = st.CloseRequest()
+				for {
+					if _, err := st.Receive(); err != nil {
+						break
+					}
+				}
+				_ = st.CloseResponse()
+			}
+			got = append(got, kind+":in="+idsOf(log.events, "in"))
+		}
+		var want []string
+		for _, kind := range order {
+			want = append(want, kind+":in=1,2")
+		}
+		c.Count("one-client-all-kinds")
+		if strings.Join(got, " ") != strings.Join(want, " ") {
+			c.Fail("icpt-order", fmt.Sprintf("one client with interceptors a, b used for calls %v", order), strings.Join(got, " "), "every call passes through the chain: "+strings.Join(want, " "))
 		}
 	}
 }
